@@ -17,6 +17,7 @@ import (
 	"strings"
 	"time"
 
+	"github.com/yandex/pandora/core/engine"
 	server "github.com/yandex/pandora/examples/grpc/server"
 	"google.golang.org/grpc/codes"
 
@@ -812,6 +813,84 @@ scenarios:
 	res.Count("http_scenario_samples", int64(len(samples)))
 }
 
+// httpScenarioCancelledInPause: four shots exist (limit 4) and four instances take one each; every
+// shot's first step is followed by a pause of two seconds. Once the target has received — and
+// answered — all four first steps, the run is cancelled. Whatever the guns do with the rest of
+// the shot, the first step was executed four times and answered four times: exactly four
+// samples may carry its name (counted, not timed).
+func httpScenarioCancelledInPause(res *vkit.Result, list string) {
+	tgt, err := vkit.NewHTTPTarget(false)
+	if err != nil {
+		res.Inconclusive(true, "target: %v", err)
+		return
+	}
+	defer tgt.Close()
+	ctx, cancel := context.WithCancel(context.Background())
+	defer cancel()
+	var firsts atomic.Int64
+	tgt.Respond = func(rec *vkit.ReqRec, w http.ResponseWriter, r *http.Request) {
+		_, _ = w.Write([]byte("ok"))
+		if strings.HasPrefix(r.URL.Path, "/first") && firsts.Add(1) == 4 {
+			time.AfterFunc(100*time.Millisecond, cancel)
+		}
+	}
+	yaml := `requests:
+  - name: "first"
+    method: "GET"
+    uri: "/first"
+    headers: {}
+  - name: "second"
+    method: "GET"
+    uri: "/second"
+    headers: {}
+scenarios:
+  - name: "scn"
+    weight: 1
+    min_waiting_time: 0
+    requests: ` + list + "\n"
+	base := vkit.WriteMem(nil)
+	vkit.RemoveMem(base)
+	sp := base + "-pause.yaml"
+	_ = vkit.WriteMemAt(sp, []byte(yaml))
+	defer vkit.RemoveMem(sp)
+	c := map[string]any{"gun": "http/scenario", "requests": list, "shots": 4, "instances": 4, "cancelled": "100 ms after the fourth first step was answered"}
+	ec, err := vkit.DecodePools(map[string]any{"pools": []any{pool(map[string]any{"type": "http/scenario", "file": sp, "limit": 4},
+		map[string]any{"type": "http/scenario", "target": tgt.Addr}, 4)}})
+	if err != nil {
+		res.Violate("C10/http-scenario/run", fmt.Sprintf("pool rejected: %v", err), c)
+		return
+	}
+	aggr := &vkit.MockAggregator{}
+	ec.Pools[0].Aggregator = aggr
+	eng := engine.New(vkit.NopLog(), vkit.NewMetrics(), ec)
+	done := make(chan error, 1)
+	go func() { done <- eng.Run(ctx) }()
+	select {
+	case <-done:
+	case <-time.After(60 * time.Second):
+		res.Inconclusive(false, "cancelled scenario run did not end within 60 s")
+		return
+	}
+	eng.Wait()
+	n := 0
+	var tagsSeen []string
+	for _, sm := range aggr.Snapshot() {
+		if strings.Split(sm.Tags, "|")[0] == "scn.first" {
+			n++
+			tagsSeen = append(tagsSeen, fmt.Sprintf("%s proto=%d net=%d", sm.Tags, sm.Proto, sm.Net))
+		}
+	}
+	if got := firsts.Load(); got != 4 {
+		res.Inconclusive(false, "the target received %d first steps instead of 4", got)
+		return
+	}
+	if n != 4 {
+		res.Violate("C10/http-scenario/cancelled-in-pause/sample-count", fmt.Sprintf("the first step was executed 4 times (4 shots exist, the target received and answered 4), but %d samples carry its name: %v", n, tagsSeen), c)
+	}
+	res.Eval("http-scenario-cancelled-in-pause "+list, true)
+	res.Count("http_scenario_samples", int64(n))
+}
+
 // ---------- (6) ids under concurrent Acquire ----------
 
 // idStress: 32 goroutines acquire HTTP ammo from one provider at the same time (what N instances
@@ -992,6 +1071,8 @@ func main() {
 	grpcTagsRecycled(res)
 	grpcScenarioStepSamples(res)
 	httpScenario(res)
+	httpScenarioCancelledInPause(res, `["first(1, 2000)", "second"]`)
+	httpScenarioCancelledInPause(res, `["first", "sleep(2000)", "second"]`)
 	recycledSamples(res, 4, 150, 400)
 	recycledSamples(res, 1, 60, 120)
 	for rep := 0; rep < vkit.N(3, 30); rep++ {
